@@ -879,7 +879,9 @@ impl SynGen {
                 continue;
             }
             let prefix = if other { alt } else { ';' };
-            let body = format!(" {}", word);
+            // blanks at the end of a comment line belong to its text
+            let tail = *self.rng.pick(&["", "", "", "", "  ", "\t", " "]);
+            let body = format!(" {}{}", word, tail);
             text.push(prefix);
             text.push_str(&body);
             text.push('\n');
@@ -1272,7 +1274,8 @@ pub fn dump_entry(e: &LedgerEntry) -> String {
                 }
             }
         }
-        syntax::LedgerEntry::Comment(c) => out.push_str(&format!("COMMENT <{}>\n", dump_text_lines(&c.0))),
+        // the text of a top-level comment is kept as written (blanks at either end included)
+        syntax::LedgerEntry::Comment(c) => out.push_str(&format!("COMMENT <{}>\n", c.0.lines().collect::<Vec<_>>().join("\\n"))),
         syntax::LedgerEntry::ApplyTag(a) => {
             out.push_str(&format!("APPLYTAG <{}>", a.key));
             match &a.value {
